@@ -156,6 +156,22 @@ pub fn check_c11<P: TP, V: Val>(side: &mut Side<P, V>, env: &mut Env, queries: &
                     ensure!(mval == side.model.get(*vk).map(|s| s.value), "C11", "C11:view_mut:value", "state {step}: mutable view {:?} value {:?}", vk, mval);
                     let mpv = mv.prefix_value().map(|(p, x)| (key_of(p), x.id()));
                     ensure!(mpv == side.model.get(*vk).map(|s| (*vk, s.value)), "C11", "C11:view_mut:prefix_value", "state {step}: mutable view {:?} prefix_value {:?}", vk, mpv);
+                    {
+                        // the read-only view borrowed from the mutable one is the same view
+                        env.cur_op = "view_mut.view";
+                        let ro = (&mv).view();
+                        ensure!(key_of(ro.prefix()) == *vk, "C11", "C11:view_mut.view:prefix", "state {step}: (&view_mut).view() of the view {:?} has prefix {:?}", vk, key_of(ro.prefix()));
+                        ensure!(ro.value().map(|x| x.id()) == side.model.get(*vk).map(|s| s.value), "C11", "C11:view_mut.view:value", "state {step}: (&view_mut).view().value() of the view {:?} = {:?}", vk, ro.value().map(|x| x.id()));
+                        ensure!(view_iter(&ro, lim) == want, "C11", "C11:view_mut.view:iter", "state {step}: (&view_mut).view() of {:?} iterates {:?}, expected {:?}", vk, view_iter(&ro, lim), want);
+                        for sidev in [false, true] {
+                            let sub = if sidev { ro.right() } else { ro.left() };
+                            let want_side: KV = want.iter().copied().filter(|(e, _)| *e != *vk && key_bit(*e, vk.len as u32) == sidev).collect();
+                            match sub {
+                                None => ensure!(want_side.is_empty(), "C11", "C11:view_mut.view:side-none-but-entries", "state {step}: (&view_mut).view() of {:?} has no {} side but entries {:?}", vk, if sidev { "right" } else { "left" }, want_side),
+                                Some(sv) => ensure!(view_iter(&sv, lim) == want_side, "C11", "C11:view_mut.view:side-entries", "state {step}: {} side of (&view_mut).view() of {:?} addresses {:?}, expected {:?}", if sidev { "right" } else { "left" }, vk, view_iter(&sv, lim), want_side),
+                            }
+                        }
+                    }
                     let got: KV = mv.iter_mut().take(lim).map(|(p, x)| (key_of(p), x.id())).collect();
                     ensure!(got == want, "C11", "C11:view_mut:iter_mut", "state {step}: mutable view {:?} iterates {:?}, entries under it {:?}", vk, got, want);
                     let gv: Vec<u64> = mv.values_mut().take(lim).map(|x| x.id()).collect();
